@@ -164,57 +164,20 @@ def rule_conc(filter_names=None):
                 sfx = crate.fx(sp)
                 # --- JOIN
                 if skey.endswith("Scope::spawn"):
-                    # scoped: the spawning body must itself be the closure handed to thread::scope
-                    pan = crate.an(prog.fns[sp].get("parent", sp)) if prog.fns[sp]["kind"] == "Closure" else None
+                    # scoped: the spawning body must be (nested in) the closure handed to thread::scope
                     scoped = False
-                    if pan is not None:
-                        for ev in pan.events:
-                            if ev["k"] == "call" and ev["key"] == SCOPE_KEY and any(a[0] == "agg" and a[1] == "closure" and a[2] == sp for a in ev["args"]):
+                    cur = sp
+                    while cur is not None and prog.fns[cur]["kind"] == "Closure" and not scoped:
+                        par = prog.fns[cur].get("parent")
+                        if par is None:
+                            break
+                        for ev in crate.an(par).events:
+                            if ev["k"] == "call" and ev["key"] == SCOPE_KEY and any(a[0] == "agg" and a[1] == "closure" and a[2] == cur for a in ev["args"]):
                                 scoped = True
+                        cur = par
                     o.check(scoped, who, "join-scoped", "a scoped spawn outside thread::scope", span)
                 else:
-                    # every handle is pushed into a Vec that is completely drained by a join loop before any return
-                    spawn_ev = [ev for ev in san.events if ev["k"] == "call" and ev["b"] == sb][0]
-                    pushed = None
-                    for ev in san.events:
-                        if ev["k"] == "call" and ev["key"] == "alloc::vec::Vec::push" and len(ev["args"]) == 2 and ev["args"][1] == spawn_ev["res"]:
-                            pushed = ev
-                    if not o.check(pushed is not None, who, "join-handle-kept", "a JoinHandle is dropped (detached thread)", span):
-                        continue
-                    hreg = pushed["args"][0][1] if pushed["args"][0][0] == "addr" else None
-                    joined = None
-                    for ev in san.events:
-                        if ev["k"] == "call" and ev["key"] == ITER_NEXT:
-                            d = sfx.iter_desc(ev)
-                            if d and d != "CYCLE" and d[0] == "mem" and d[1] == hreg:
-                                item = ("field", ("dc", ev["res"], "Some"), "0")
-                                body = san.cfg.loops.get(san.cfg.loop_of(ev["b"]), set())
-                                for e2 in san.events:
-                                    if e2["k"] == "call" and e2["key"] in JOIN_KEYS and e2["b"] in body and e2["args"][0] == item:
-                                        joined = ev
-                    if o.check(joined is not None, who, "join-loop", "no loop joins every spawned handle", span):
-                        o.check(complete_scan(san, sfx, joined), who, "join-all", "the join loop can end before every worker is joined", joined["span"])
-                        # no path from the spawn to a return that avoids the join loop's exhaustion edge
-                        exit_edges = set()
-                        for x in san.cfg.rpo:
-                            e3 = sfx.ev_term.get(x)
-                            if e3 is not None and e3["k"] == "switch" and e3["discr"][0] == "discr" and e3["discr"][1] == joined["res"]:
-                                for tg, lab in san.cfg.succ[x]:
-                                    if ("variant", joined["res"], "None") in sfx.edge_atoms(x, lab, tg):
-                                        exit_edges.add((x, tg))
-                        seen = set()
-                        work = [sb]
-                        while work:
-                            x = work.pop()
-                            if x in seen:
-                                continue
-                            seen.add(x)
-                            for tg, lab in san.cfg.succ[x]:
-                                if (x, tg) not in exit_edges:
-                                    work.append(tg)
-                        bad = [rb for rb in san.cfg.returns if rb in seen]
-                        o.check(not bad and bool(exit_edges), who, "join-before-return",
-                                "a normal return is reachable from the spawn without the join loop having joined every worker", span)
+                    join_checks(crate, o, who, sp, sb, span)
                 # --- WRITES inside the worker (and closures nested in it)
                 for wp in [wc] + [c for c in crate.fn_paths() if prog.fns[c].get("parent") == wc]:
                     wan = crate.an(wp)
@@ -256,8 +219,15 @@ def rule_conc(filter_names=None):
             if tt is not None:
                 o.check(True, who, "tile-trusted", "")
                 continue
-            o.check(len(tiles) >= 1, who, "tile-template", "the partition of the rows over the workers matches no proven template "
-                    "(start = k*c, end = min(n, start+c), c = div_ceil(n, t); or step_by(c) / chunks(c))")
+            if not tiles and any(_range_partition_worker(crate, wc) for (_, _, _, wc) in ws if wc):
+                o.check(False, who, "tile-template", "workers loop over a captured range start..end, but the way the ranges are "
+                        "computed matches no proven tiling of 0..n (start = k*c, end = min(n, start+c), c = div_ceil(n, t); "
+                        "or (0..n).step_by(c))")
+            elif not tiles:
+                o.undecide(who, "tile-template", "the partition of the rows over the workers matches no proven template "
+                           "(start = k*c, end = min(n, start+c), c = div_ceil(n, t); or step_by(c) / chunks(c)); the tiling is not decided")
+            else:
+                o.check(True, who, "tile-template", "")
             for (tag, ok, sp_, msg) in tiles:
                 o.check(ok, who, "tile:" + tag, msg, sp_)
         # a sequential re-implementation of a parallel operation trivially satisfies the property, so the
@@ -265,6 +235,80 @@ def rule_conc(filter_names=None):
         fl = 1 if filter_names is None else 0
         return o.report(floors={"parallel operations (available_parallelism callers)": (o.instances, fl)})
     return f
+
+
+def join_checks(crate, o, who, sp, sb, span):
+    """every JoinHandle is kept in a Vec that a complete loop joins before any normal return: the handle is pushed
+    in the spawning body, or the spawning body is a closure that returns it to a map(..).collect::<Vec<_>>()"""
+    from .mem import complete_scan
+    prog = crate.prog
+    san = crate.an(sp)
+    sfx = crate.fx(sp)
+    spawn_ev = [ev for ev in san.events if ev["k"] == "call" and ev["b"] == sb][0]
+    jan, jfx, hreg, start_b = None, None, None, None
+    hval = None
+    for ev in san.events:
+        if ev["k"] == "call" and ev["key"] == "alloc::vec::Vec::push" and len(ev["args"]) == 2 and ev["args"][1] == spawn_ev["res"]:
+            jan, jfx = san, sfx
+            hreg = ev["args"][0][1] if ev["args"][0][0] == "addr" else None
+            start_b = sb
+    if jan is None and prog.fns[sp]["kind"] == "Closure":
+        rets = [ev for ev in san.events if ev["k"] == "return"]
+        par = prog.fns[sp].get("parent")
+        if len(rets) == 1 and rets[0]["val"] == spawn_ev["res"] and par is not None:
+            pan = crate.an(par)
+            for ev in pan.events:
+                if ev["k"] != "call" or ev["key"] != "core::iter::traits::iterator::Iterator::collect" or not ev["args"]:
+                    continue
+                if not any(isinstance(x.get("s"), str) and x["s"].startswith("std::vec::Vec<") for x in ev["fn"].get("targs", [])):
+                    continue
+                src = ev["args"][0]
+                # the closure is the last map() of the collected pipeline: every item it produces is kept
+                if src[0] == "call" and src[1] == "core::iter::traits::iterator::Iterator::map" and src[3][1][0] == "agg" \
+                        and src[3][1][2] == sp:
+                    mode, name, vp = pan.walk_place(pan.blocks[ev["b"]]["term"]["dest"])
+                    jan, jfx, start_b = pan, crate.fx(par), ev["b"]
+                    if mode == "mem":
+                        hreg = name
+                    else:
+                        hval = ev["res"]
+    if not o.check(jan is not None and (hreg is not None or hval is not None), who, "join-handle-kept", "a JoinHandle is dropped (detached thread)", span):
+        return
+    joined = None
+    for ev in jan.events:
+        if ev["k"] == "call" and ev["key"] == ITER_NEXT:
+            d = jfx.iter_desc(ev)
+            if d and d != "CYCLE" and ((hreg is not None and ((d[0] == "mem" and d[1] == hreg) or
+                                                             (d[0] in ("site", "call") and jan.term_of.get((hreg, ev["vers"].get(hreg))) == d)))
+                                       or (hval is not None and d == hval)):
+                item = ("field", ("dc", ev["res"], "Some"), "0")
+                body = jan.cfg.loops.get(jan.cfg.loop_of(ev["b"]), set())
+                for e2 in jan.events:
+                    if e2["k"] == "call" and e2["key"] in JOIN_KEYS and e2["b"] in body and e2["args"][0] == item:
+                        joined = ev
+    if o.check(joined is not None, who, "join-loop", "no loop joins every spawned handle", span):
+        o.check(complete_scan(jan, jfx, joined), who, "join-all", "the join loop can end before every worker is joined", joined["span"])
+        # no path from the spawn to a return that avoids the join loop's exhaustion edge
+        exit_edges = set()
+        for x in jan.cfg.rpo:
+            e3 = jfx.ev_term.get(x)
+            if e3 is not None and e3["k"] == "switch" and e3["discr"][0] == "discr" and e3["discr"][1] == joined["res"]:
+                for tg, lab in jan.cfg.succ[x]:
+                    if ("variant", joined["res"], "None") in jfx.edge_atoms(x, lab, tg):
+                        exit_edges.add((x, tg))
+        seen = set()
+        work = [start_b]
+        while work:
+            x = work.pop()
+            if x in seen:
+                continue
+            seen.add(x)
+            for tg, lab in jan.cfg.succ[x]:
+                if (x, tg) not in exit_edges:
+                    work.append(tg)
+        bad = [rb for rb in jan.cfg.returns if rb in seen]
+        o.check(not bad and bool(exit_edges), who, "join-before-return",
+                "a normal return is reachable from the spawn without the join loop having joined every worker", span)
 
 
 def _after_loop(an, hb, rb):
@@ -334,19 +378,36 @@ def tile_templates(crate, root):
                         continue
                     for start, c in (xy, xy[::-1]):
                         dc = _chunk_def(crate, an, c)
-                        if dc is None:
+                        if dc is None and not _is_chunk_like(crate, an, c):
                             continue
-                        nn, t = dc
-                        okc = nn == n or _same_value(crate, an, nn, n)
-                        out.append(("chunk-is-div-ceil", okc, ev["span"], "chunk size is not div_ceil(n, t) for the same n that bounds `end`"))
+                        # `end = min(n, start + c)` with c derived from a division by the thread count: the row
+                        # partition idiom; it tiles 0..n exactly when c = div_ceil(n, t) and start = k * c
+                        if dc is None:
+                            out.append(("chunk-is-div-ceil", False, ev["span"], "chunk size is not div_ceil(n, t): rows beyond t * chunk are never assigned"))
+                        else:
+                            nn, t = dc
+                            okc = nn == n or _same_value(crate, an, nn, n)
+                            out.append(("chunk-is-div-ceil", okc, ev["span"], "chunk size is not div_ceil(n, t) for the same n that bounds `end`"))
                         # start: k * c (k loop var) or item of step_by(0..n, c)
                         st_ok = False
                         if start[0] == "bin" and start[1] == "Mul" and c in (start[2], start[3]):
+                            st_ok = True
+                        # known to equal k * c (e.g. the tuple component a map() closure computed)
+                        def is_mul(rel, start=start, c=c):
+                            for a_ in rel.w:
+                                if a_[0] == "eq" and start in a_[1:]:
+                                    oth = a_[2] if a_[1] == start else a_[1]
+                                    if oth[0] == "bin" and oth[1] == "Mul" and c in (oth[2], oth[3]):
+                                        return True
+                            return False
+                        if not st_ok and fx.holds(ev["b"], is_mul):
                             st_ok = True
                         site, path = payload_of(start)
                         if site is not None:
                             e2 = fx.an_call_at(site[1])
                             d = fx.iter_desc(e2) if e2 else None
+                            if d and d != "CYCLE" and d[0] == "call" and d[1].endswith("Iterator::enumerate") and path == (1,):
+                                d = d[3][0]         # (k, start) of step_by(..).enumerate()
                             if d and d != "CYCLE" and d[0] == "call" and d[1].endswith("Iterator::step_by") and d[3][1] == c \
                                     and d[3][0][0] == "agg" and d[3][0][3][0] == ("const", "usize", 0) and \
                                     (d[3][0][3][1] == n or _same_value(crate, an, d[3][0][3][1], n)):
@@ -357,6 +418,46 @@ def tile_templates(crate, root):
                 dc = _chunk_def(crate, an, ev["args"][1])
                 out.append(("chunks-div-ceil", dc is not None, ev["span"], "chunks() size is not div_ceil(n, t)"))
     return out
+
+
+def _range_partition_worker(crate, wc):
+    """the worker iterates `for u in start..end` with both bounds captured scalars"""
+    an = crate.an(wc)
+    fx = crate.fx(wc)
+
+    def captured(t):
+        return (t[0] == "field" and t[1] == ("arg", 1)) or (t[0] == "mem" and t[1].startswith("A1.") and t[3] is None)
+    for ev in an.events:
+        if ev["k"] == "call" and ev["key"] == ITER_NEXT:
+            d = fx.iter_desc(ev)
+            if d and d != "CYCLE" and d[0] == "agg" and d[1] == "adt" and d[2][0].endswith("ops::range::Range") \
+                    and captured(d[3][0]) and captured(d[3][1]):
+                return True
+    return False
+
+
+def _is_chunk_like(crate, an, c):
+    """c is a captured or local scalar computed from a division by the thread count"""
+    from .closures import capture_map
+
+    def has_div(t):
+        # the value itself is a quotient (possibly clamped), not merely something computed from one
+        if isinstance(t, tuple) and t:
+            if t[0] == "bin" and t[1] in ("Div", "Shr"):
+                return True
+            if t[0] == "call" and t[1] in ("usize::div_ceil", "usize::div_floor", "usize::checked_div"):
+                return True
+            if t[0] in ("max", "min"):
+                return has_div(t[1]) or has_div(t[2])
+        return False
+    if has_div(c):
+        return True
+    cm = capture_map(crate, an)
+    if cm is not None:
+        for pv, cv in cm.valmap:
+            if cv == c and (has_div(pv) or _is_chunk_like(crate, cm.pan, pv)):
+                return True
+    return False
 
 
 def _chunk_def(crate, an, c):
